@@ -506,6 +506,37 @@ func parseSections(out string) map[string][]string {
 	return res
 }
 
+// galDef: the definition itself, from which the Coq model derives the generators' documented
+// error conditions (GenBuildModel.derived_shapes).
+func galDef(s *Spec) string {
+	if s == nil {
+		return "DNone"
+	}
+	switch s.Tool {
+	case "gsort":
+		fs := gal.ListOf(s.Sort.Fields, func(f SortField) string {
+			return "{| rf_name := " + gal.Str(f.Name) + "; rf_isbool := " + gal.Bool(f.Type == "bool") + "; rf_tag := " +
+				gal.ListOf(f.Tags, func(t string) string { return gal.Pair(gal.Str("gsort"), gal.Str(t)) }) + " |}"
+		})
+		return "(DSort " + gal.Str(s.Sort.Type) + " " + gal.Bool(!strings.HasPrefix(s.Sort.Label, "notstruct")) + " " + fs + ")"
+	case "gerror":
+		return "(DErr " + gal.Bool(!s.Err.NotStruct) + " " + gal.Bool(!s.Err.NoEmbed) + " " +
+			gal.ListOf(s.Err.Fields, func(f ErrField) string { return gal.Str(f.Tag) }) + ")"
+	case "genum":
+		lines := gal.ListOf(s.Enum.Lines, func(l EnumLine) string {
+			return "{| el_name := " + gal.Str(l.Name) + "; el_value := (" + bigOf(l.Value).String() + ")%Z; el_cells := " +
+				gal.ListOf(l.Cells, gal.Str) + " |}"
+		})
+		traits := gal.ListOf(s.Enum.Traits, func(t TraitCol) string { return gal.Str(t.Name) })
+		var parsable []string
+		if s.GOpts != nil {
+			parsable = s.GOpts.Parsable
+		}
+		return "(DEnum " + lines + " " + traits + " " + gal.ListOf(parsable, gal.Str) + ")"
+	}
+	return "DNone"
+}
+
 func galCase(c Case) string {
 	tool := map[string]string{"genum": "TGenum", "gerror": "TGerror", "gsort": "TGsort", "multi": "TMulti"}[c.Tool]
 	var names []string
@@ -520,6 +551,7 @@ func galCase(c Case) string {
 	obs := map[string]string{"built": "ObsBuilt", "err": "ObsErr", "bad": "ObsBad"}[c.Obs.Outcome]
 	return "{| gc_tool := " + tool + "; gc_flags := " + gal.List(fl) + "; gc_parsable := " + gal.Bool(c.Parsable) +
 		"; gc_kinds := " + gal.ListOf(c.Kinds, gal.Str) + "; gc_shapes := " + gal.ListOf(c.Shapes, gal.Str) +
+		"; gc_def := " + galDef(c.Spec) +
 		"; gc_own := " + gal.Str(c.Own) +
 		"; gc_imports := " + gal.ListOf(c.Imports, func(p [2]string) string { return gal.Pair(gal.Str(p[0]), gal.Str(p[1])) }) +
 		"; gc_refs := " + gal.ListOf(c.Refs, func(r Ref) string {
